@@ -19,6 +19,11 @@
                        while the reporter mutex is held (the pinned tree)
      Blocking = FALSE  the send is done by a goroutine of its own that gives up when the service it
                        belongs to has been shut down (fixes/C20-fatal-error-send.patch)
+     SafeWatch = FALSE Resolver.Shutdown closes the watcher channel while providers may still notify:
+                       a notification that is blocked on the full buffer, or arrives before its
+                       retrieval is closed, panics (the pinned tree)
+     SafeWatch = TRUE  Shutdown first turns notifications away (done channel), waits for those in
+                       flight, then closes the channel (fixes/C20-watcher-close.patch)
    Deviations from the code, on purpose:
      * components are created in start order (the real order is pipelines, then extensions) and
        shut down in exactly the reverse start order; orders are C10's business
@@ -34,6 +39,7 @@ CONSTANTS Comps,        \* the components every configuration consists of
           MaxEnv,       \* bound on external events
           MaxFail,      \* bound on scripted failures (broken config, create / start / shutdown errors)
           Blocking,     \* see above
+          SafeWatch,    \* see above
           Nobody        \* model value
 
 ASSUME Comps = {CompSeq[k] : k \in 1..Len(CompSeq)}
@@ -87,10 +93,14 @@ Anchor ==
     [] pc \in {"pcloseA", "pcloseB"}    -> "pclose:" \o ToS(gen)
     [] pc = "provsd"                    -> "provsd"
     [] OTHER                            -> "post"
-Fail(what) == /\ nfail < MaxFail /\ nfail' = nfail + 1
+\* gates: TRUE here; CollectorGen overrides them to bias random simulation (never in exhaustive runs)
+EnvGate == TRUE
+FailGate == TRUE
+TimeoutGate == TRUE
+Fail(what) == /\ nfail < MaxFail /\ FailGate /\ nfail' = nfail + 1
               /\ hist' = Append(hist, [k |-> "fail", c |-> what, at |-> "", v |-> pc])
 NoFail == nfail' = nfail /\ hist' = hist
-Env(kind, c) == /\ nenv < MaxEnv /\ nenv' = nenv + 1 /\ pc # "timedout"
+Env(kind, c) == /\ nenv < MaxEnv /\ EnvGate /\ nenv' = nenv + 1 /\ pc # "timedout"
                 /\ hist' = Append(hist, [k |-> kind, c |-> c, at |-> Anchor,
                                          \* visit: distinguishes two stays at the same anchor
                                          v |-> ToS(gen) \o (IF Anchor = "idle" THEN "idle" ELSE pc)])
@@ -208,7 +218,8 @@ Closing ==
 WClose ==
   /\ pc = "wclose" /\ wclosed' = TRUE /\ wblk' = <<>> /\ pc' = "pcloseA"
   /\ \* a sender blocked on the buffer panics when the channel is closed under it
-     o' = IF wblk # <<>> THEN ONotified(o, FALSE, TRUE, state) ELSE o
+     \* (SafeWatch: it is released by the done channel first and returns)
+     o' = IF wblk # <<>> THEN ONotified(o, FALSE, ~SafeWatch, state) ELSE o
   /\ UNCHANGED <<i, mode, state, gen, fs, rmu, fpc, ftg, shutReq, ctxDone, sigReg, sigQ, wbuf,
                  openA, openB, apend, sdoneG, stopErr, nenv, nfail, hist>>
 PCloseA ==
@@ -336,7 +347,8 @@ ExtChange(v) ==
   /\ Env(IF v = "ok" THEN "change" ELSE "change_err", "")
   /\ LET o1 == IF v = "ok" THEN OExtChange(o, state) ELSE OSample(o, state) IN
      IF wclosed
-       THEN /\ o' = ONotified(o1, v = "err", TRUE, state) /\ UNCHANGED <<wbuf, wblk>>   \* send on closed channel
+       THEN \* send on closed channel (SafeWatch: the notification is turned away)
+            /\ o' = ONotified(o1, FALSE, ~SafeWatch, state) /\ UNCHANGED <<wbuf, wblk>>
        ELSE IF wbuf = <<>>
               THEN /\ wbuf' = <<v>> /\ wblk' = wblk /\ o' = ONotified(o1, v = "err", FALSE, state)
               ELSE /\ wblk' = Append(wblk, v) /\ wbuf' = wbuf /\ o' = o1
@@ -349,7 +361,7 @@ EnvNext == ExtShutdown \/ ExtCtx \/ ExtSignal("sighup") \/ ExtSignal("sigterm")
 \* neither the run loop nor a reporter can take a step and Run has not returned
 Quiescent == pc \notin {"returned", "timedout"} /\ ~ENABLED RunNext /\ ~ENABLED RepNext
 Timeout ==
-  /\ Quiescent /\ pc' = "timedout" /\ o' = OTimeout(o, state)
+  /\ Quiescent /\ TimeoutGate /\ pc' = "timedout" /\ o' = OTimeout(o, state)
   /\ UNCHANGED <<i, mode, state, gen, fs, rmu, fpc, ftg, shutReq, ctxDone, sigReg, sigQ, wbuf, wblk, wclosed,
                  openA, openB, apend, sdoneG, stopErr, nenv, nfail, hist>>
 
